@@ -12,6 +12,7 @@
 #include <atomic>
 #include <cassert>
 #include <cstdint>
+#include <cstring>
 #include <memory>
 
 namespace xenium {
@@ -131,9 +132,12 @@ struct seqlock {
   void update(Func func);
 
 private:
-  using storage_t = typename std::aligned_storage<sizeof(T), alignof(T)>::type;
   using sequence_t = uintptr_t;
   using copy_t = uintptr_t;
+  // The data is copied word-wise, so each slot has to be a whole number of (suitably aligned) words.
+  static constexpr std::size_t words = (sizeof(T) + sizeof(copy_t) - 1) / sizeof(copy_t);
+  using storage_t = typename std::
+    aligned_storage<words * sizeof(copy_t), (alignof(T) > alignof(copy_t) ? alignof(T) : alignof(copy_t))>::type;
 
   [[nodiscard]] bool is_write_pending(sequence_t seq) const { return (seq & 1) != 0; }
 
@@ -228,14 +232,16 @@ void seqlock<T, Policies...>::release_lock(sequence_t seq) {
 
 template <class T, class... Policies>
 void seqlock<T, Policies...>::read_data(T& dest, const storage_t& src) const {
-  auto* pdest = reinterpret_cast<copy_t*>(&dest);
-  auto* pend = pdest + (sizeof(T) / sizeof(copy_t));
+  copy_t buffer[words];
+  auto* pdest = buffer;
+  auto* pend = pdest + words;
   const auto* psrc = reinterpret_cast<const std::atomic<copy_t>*>(&src);
   for (; pdest != pend; ++psrc, ++pdest) {
     *pdest = psrc->load(std::memory_order_relaxed);
   }
   // (6) - this acquire-fence synchronizes-with the release-fence (7)
   XENIUM_THREAD_FENCE(std::memory_order_acquire);
+  std::memcpy(&dest, buffer, sizeof(T));
 
   // Effectively this fence transforms the previous relaxed-loads into acquire-loads. This
   // is necessary to enforce an order with the subsequent load of _seq, so that these
@@ -247,11 +253,14 @@ void seqlock<T, Policies...>::read_data(T& dest, const storage_t& src) const {
 
 template <class T, class... Policies>
 void seqlock<T, Policies...>::store_data(const T& src, storage_t& dest) {
+  copy_t buffer[words] = {};
+  std::memcpy(buffer, &src, sizeof(T));
+
   // (7) - this release-fence synchronizes-with the acquire-fence (6)
   XENIUM_THREAD_FENCE(std::memory_order_release);
 
-  const auto* psrc = reinterpret_cast<const copy_t*>(&src);
-  const auto* pend = psrc + (sizeof(T) / sizeof(copy_t));
+  const auto* psrc = buffer;
+  const auto* pend = psrc + words;
   auto* pdest = reinterpret_cast<std::atomic<copy_t>*>(&dest);
   for (; psrc != pend; ++psrc, ++pdest) {
     pdest->store(*psrc, std::memory_order_relaxed);
